@@ -97,8 +97,9 @@ func runMembership(prop string, p *harness.Plan, after func(m *memRig, kind stri
 		r.out.ToolError = err.Error()
 		return nil, nil, r.out
 	}
+	r.mem = m
 	c.Run(2 * time.Second)
-	for _, op := range p.Ops {
+	for idx, op := range p.Ops {
 		if c.Halt {
 			break
 		}
@@ -146,6 +147,11 @@ func runMembership(prop string, p *harness.Plan, after func(m *memRig, kind stri
 			}
 			if last != nil {
 				done = m.settle(last, 60*time.Second)
+			}
+		default:
+			if f, ok := r.extra[op.Kind]; ok {
+				f(op, idx)
+				done = true
 			}
 		case "mem.restart":
 			n := r.node(op.N)
